@@ -344,7 +344,27 @@ def _stop(ck, P, cfg):
     if not par:
         ck.violated("C08.7", inst, b.where, "the termination broadcast of RootsimStop is not on the parallel path", cfg)
     elif count_ok is None:
-        ck.inconclusive("C08.7", inst, b.where, "number of termination notices not recognised", cfg)
+        # count the broadcasts by evaluating the function over its loop index for 1..8 ranks
+        from .. import interp
+        short = None
+        unknown = False
+        for n in range(1, 9):
+            outs = interp.Interp(f, max_visits=n + 5).run({"global_config.serial": 0, "n_nodes": n})
+            done = [o for o in outs if o.how == "exit"]
+            if outs and all(o.how == "loop-bound" for o in outs):
+                continue        # more than n + 4 broadcasts: enough
+            if len(done) != 1 or len(outs) != 1:
+                unknown = True
+                break
+            k = len([1 for name, a, e in done[0].calls if name == "mpi_control_msg_broadcast"])
+            if k < n and short is None:
+                short = (n, k)
+        if unknown:
+            ck.inconclusive("C08.7", inst, b.where, "number of termination notices not recognised", cfg)
+        elif short:
+            ck.violated("C08.7", inst, b.where, "with %d rank(s) RootsimStop broadcasts the termination notice %d time(s): a rank waiting for %d notices keeps running" % (short[0], short[1], short[0]), cfg)
+        else:
+            ck.holds("C08.7", inst, b.where, "for 1..8 ranks at least n_nodes broadcasts", cfg)
     elif count_ok[0]:
         ck.holds("C08.7", inst, b.where, "%s broadcasts: every rank's counter of %s pending ranks reaches zero whatever was already received" % (count_ok[1], "n_nodes"), cfg)
     else:
